@@ -221,7 +221,7 @@ func (rc *roleCtx) roleOfCell(al *ssa.Alloc, sub Subst, d int) int {
 
 func (rc *roleCtx) roleOfCall(cl *ssa.Call, idx int, sub Subst, d int) int {
 	V := rc.c.V
-	cal := cl.Call.StaticCallee()
+	cal := staticCallee(cl)
 	if cal == nil {
 		return 0
 	}
@@ -284,7 +284,7 @@ func (rc *roleCtx) roleOfSlot(s ssa.Value, k int64, sub Subst, d int) int {
 			return rc.slotOfCall(cl, x.Index, k, sub, d+1)
 		}
 	case *ssa.Call:
-		if x.Call.StaticCallee() == V.lockInodes {
+		if staticCallee(x) == V.lockInodes {
 			return rc.roleOfElem(argN(x, 1), k, sub, d+1)
 		}
 		return rc.slotOfCall(x, 0, k, sub, d+1)
@@ -307,7 +307,7 @@ func (rc *roleCtx) roleOfSlot(s ssa.Value, k int64, sub Subst, d int) int {
 }
 
 func (rc *roleCtx) slotOfCall(cl *ssa.Call, idx int, k int64, sub Subst, d int) int {
-	cal := cl.Call.StaticCallee()
+	cal := staticCallee(cl)
 	if cal == nil || !IsRepoFunc(cal) || cal.Blocks == nil || d > 30 {
 		return 0
 	}
@@ -349,7 +349,7 @@ func (rc *roleCtx) roleOfElem(n ssa.Value, k int64, sub Subst, d int) int {
 		}
 		return m
 	case *ssa.Call:
-		if x.Call.StaticCallee() == rc.two && int(k) < len(x.Call.Args) {
+		if staticCallee(x) == rc.two && int(k) < len(x.Call.Args) {
 			return rc.roleOf(x.Call.Args[k], sub, d+1)
 		}
 		return 0
@@ -502,7 +502,7 @@ func ruleRoles(c *Ctx, id string, vr, ren, lookup, two *ssa.Function) {
 						}
 					}
 				case *ssa.Call:
-					if x.Call.StaticCallee() == lookup && len(x.Call.Args) == 3 {
+					if staticCallee(x) == lookup && len(x.Call.Args) == 3 {
 						if pm, ok := sub.resolve(stripConv(x.Call.Args[2])).(*ssa.Parameter); ok && pm.Parent() == vr {
 							add(pm, sub.resolve(stripConv(x.Call.Args[0])))
 						}
@@ -560,7 +560,7 @@ func ruleRoles(c *Ctx, id string, vr, ren, lookup, two *ssa.Function) {
 					continue
 				}
 				rc := &roleCtx{c: c, req: req, lookup: lookup, two: two, seen: map[string]bool{}}
-				cal := call.Call.StaticCallee()
+				cal := staticCallee(call)
 				where := ""
 				if sc.Fn != ren {
 					where = sc.Fn.Name() + ":"
